@@ -12,7 +12,8 @@ template <unsigned N, unsigned ES, unsigned CAP>
 struct Q {
 	using P = posit<N, ES>;
 	using QT = quire<N, ES, CAP>;
-	static constexpr unsigned qbits = QT::qbits;
+	// observable magnitude bits: lower (half_range) + upper (half_range + 1) + capacity; note QT::qbits is one less
+	static constexpr unsigned qbits = QT::half_range + QT::upper_range + CAP;
 	static std::string cfg() { return std::to_string(N) + "," + std::to_string(ES) + "," + std::to_string(CAP); }
 	static std::string st(const QT& q) {
 		std::string m = hex_from_bits(qbits, [&](unsigned i) { return q[(int)i]; });
@@ -52,11 +53,19 @@ struct Q {
 			unsigned len = 1 + (unsigned)g.below(40);
 			std::vector<Step> steps;
 			P prev; prev.setbits(1);
+			// a third of the histories are aimed at the segment boundaries: push the sum into the capacity bits with
+			// maxpos^2 products (or into the upper segment with maxpos), mix in small terms, then cancel it again
+			bool aimed = g.below(3) == 0;
+			P mx; mx.setbits((1ull << (N - 1)) - 1);
+			unsigned big = aimed ? 2 + (unsigned)g.below(5) : 0;
+			bool bigneg = g.below(2);
+			for (unsigned i = 0; i < big; ++i) { Step s; s.op = g.below(4) ? OP_qstep_mul : OP_qstep_add; s.a = bigneg ? -mx : mx; s.b = mx; steps.push_back(s); }
 			for (unsigned i = 0; i < len; ++i) {
 				Step s; s.op = (int)(OP_qstep_add + g.below(3));
 				s.a = operand(g, prev); s.b = operand(g, s.a); prev = s.a;
 				steps.push_back(s);
 			}
+			for (unsigned i = 0; i < big; ++i) { Step s = steps[i]; s.a = -s.a; if (g.below(4)) steps.push_back(s); }
 			QT q; q.clear();
 			for (auto& s : steps) { apply(q, s); if (g.below(4) == 0) round(q); }
 			round(q);
